@@ -124,7 +124,8 @@ def _work(args):
 
 
 def corpus(tier):
-    graphs = [g for n in range(1, 5) for g in enum_closed(n)]
+    from ..sweep import frontend_graphs
+    graphs = [g for n in range(1, 5) for g in enum_closed(n)] + list(frontend_graphs(2))
     progs = list(skeleton_sources(1, "marked")) + list(skeleton_sources(1, "bare"))
     return graphs, progs
 
@@ -161,6 +162,9 @@ def run(tier: str, seed: int):
     units = []
     if tier == "quick":
         units += [("graphs", u, 1) for u in units_for({"E": 4})]
+        from ..sweep import frontend_graphs
+        s2g = frontend_graphs(2)       # CFGs of the source front end for S(<=2): up to 9 blocks, loops with several latches
+        units += [("graphs", ("L", "S2", s2g[i:i + 6]), 1) for i in range(0, len(s2g), 6)]
         s1 = list(skeleton_sources(1, "marked")) + list(skeleton_sources(1, "bare"))
         units += [("progs", s1[i:i + 8], 1) for i in range(0, len(s1), 8)]
     else:
